@@ -48,12 +48,13 @@ Record world := {
   w_zf : nat -> bool;
   w_glob : string -> nat -> Z;
   w_xmm : nat -> nat -> Z * Z;      (* what the n-th hook body (and the libc code it runs) leaves in xmm<i> *)
-  w_ctx : nat -> Z -> Z             (* garbage in the wrapper's context buffer before the save *)
+  w_ctx : nat -> Z -> Z;            (* garbage in the wrapper's context buffer before the save *)
+  w_avx : bool                      (* the machine has its ymm state enabled (mcount_arch_check_avx) *)
 }.
 
 Definition c_call_xmm (W : world) (f : string) (n : nat) (x : nat -> Z * Z) : nat -> Z * Z :=
   if xmm_leaf f then x
-  else if xmm_wrapped f then arch_roundtrip_now x (w_ctx W n) (w_xmm W n)
+  else if xmm_wrapped f then arch_roundtrip128 (w_avx W) x (w_ctx W n) (w_xmm W n)
   else w_xmm W n.
 
 Record cstate := {
